@@ -142,6 +142,8 @@ Record rule := {
     under `off`, owned by C08) and C15-F1 *)
 Record fixes := { fx_c08f2 : bool; fx_f1 : bool }.
 Definition pinned : fixes := {| fx_c08f2 := false; fx_f1 := false |}.
+(** the tree as it is now: C08-F2 repaired by a779db8 *)
+Definition current : fixes := {| fx_c08f2 := true; fx_f1 := false |}.
 
 (** * what heimdall sees *)
 
